@@ -158,4 +158,102 @@ theorem flagInternal_simple {t : Tree} (s : Struct t) (hna : NoNegAlias t) :
         refine ⟨c, L, fun σ v hm => ?_⟩
         have := hm n hn; rw [hg] at this; rw [this]; exact hc σ v hm
 
+/-! ### weaker hypothesis: negations may point at aliases whose chain does not end in a join -/
+
+/-- `x` is the first non-alias node reached from `a` by following `Aliased` links -/
+inductive AliasEnd (t : Tree) : Nat → Nat → Prop
+  | here {a : Nat} : (∀ b, t.get a ≠ .aliased b) → AliasEnd t a a
+  | step {a b x : Nat} : t.get a = .aliased b → AliasEnd t b x → AliasEnd t a x
+
+/-- the negation of node `n` is `c ∧ ⋀ L` in every model -/
+def IsNegConj (t : Tree) (n : Nat) : Prop :=
+  ∃ (c : Bool) (L : List Lit), ∀ σ v, Models t σ v → (!v n) = (c && litsHold σ L)
+
+/-- chain condition at one node: following aliases from `n` never ends in a join -/
+def ChainNoJoin (t : Tree) (n : Nat) : Prop := ∀ x, AliasEnd t n x → ∀ op ns, t.get x ≠ .joined op ns
+
+/-- no negation points, through one or more alias nodes, at a join.  Weaker than `NoNegAlias`:
+    e.g. the constant alias chains left by `replace_and_simplify` (`~6` with `6:>1`) satisfy it. -/
+def NoNegAliasJoin (t : Tree) : Prop :=
+  ∀ i a b, i < t.size → t.get i = .negated a → t.get a = .aliased b → ChainNoJoin t a
+
+theorem flagInternal_simple_chain {t : Tree} (s : Struct t) (hch : NoNegAliasJoin t) :
+    ∀ (f f0 : Nat), f0 ≤ f → ∀ n, n < t.size → flagInternal t f0 n = some false →
+    IsConj t n ∧ (ChainNoJoin t n → IsNegConj t n) := by
+  intro f
+  induction f with
+  | zero =>
+    intro f0 hf0 n _ h
+    have : f0 = 0 := by omega
+    subst this; simp [flagInternal] at h
+  | succ f0 ih0 =>
+    intro f1 hf1 n hn h
+    cases f1 with
+    | zero => simp [flagInternal] at h
+    | succ f =>
+    have hff : f ≤ f0 := by omega
+    have ih := fun n hn h => ih0 f hff n hn h
+    have hcl := s.closed n hn
+    unfold flagInternal at h
+    cases hg : t.get n with
+    | tru =>
+      refine ⟨⟨true, [], fun σ v hm => ?_⟩, fun _ => ⟨false, [], fun σ v hm => ?_⟩⟩
+      · have := hm n hn; rw [hg] at this; simp [this, evalNode, litsHold]
+      · have := hm n hn; rw [hg] at this; simp [this, evalNode]
+    | fls => rw [hg] at h; simp at h
+    | surface k =>
+      refine ⟨⟨true, [(k, true)], fun σ v hm => ?_⟩, fun _ => ⟨true, [(k, false)], fun σ v hm => ?_⟩⟩
+      · have := hm n hn; rw [hg] at this; simp [this, evalNode, litsHold]
+      · have := hm n hn; rw [hg] at this; simp [this, evalNode, litsHold]
+    | aliased a =>
+      rw [hg] at h hcl
+      have ha : a < t.size := hcl a (by simp [Node.children])
+      have iha := ih a ha h
+      have hv : ∀ σ v, Models t σ v → v n = v a := fun σ v hm => by
+        have := hm n hn; rw [hg] at this; exact this
+      refine ⟨?_, fun hc => ?_⟩
+      · rcases iha.1 with ⟨c, L, hc⟩
+        exact ⟨c, L, fun σ v hm => by rw [hv σ v hm]; exact hc σ v hm⟩
+      · have hca : ChainNoJoin t a := fun x hx => hc x (AliasEnd.step hg hx)
+        rcases iha.2 hca with ⟨c, L, hc'⟩
+        exact ⟨c, L, fun σ v hm => by rw [hv σ v hm]; exact hc' σ v hm⟩
+    | negated a =>
+      rw [hg] at h hcl
+      have ha : a < t.size := hcl a (by simp [Node.children])
+      simp only at h
+      have hfa : flagInternal t f a = some false := by
+        cases hga : t.get a with
+        | joined op ns => rw [hga] at h; simp at h
+        | tru | fls | surface _ | aliased _ | negated _ => rw [hga] at h; exact h
+      have iha := ih a ha hfa
+      have hv : ∀ σ v, Models t σ v → v n = !v a := fun σ v hm => by
+        have := hm n hn; rw [hg] at this; exact this
+      have hchain : ChainNoJoin t a := by
+        intro x hx op ns hgx
+        cases hx with
+        | here _ => rw [hgx] at h; simp at h
+        | step hab hbx => exact hch n a _ hn hg hab x (AliasEnd.step hab hbx) op ns hgx
+      refine ⟨?_, fun _ => ?_⟩
+      · rcases iha.2 hchain with ⟨c, L, hc⟩
+        exact ⟨c, L, fun σ v hm => by rw [hv σ v hm]; exact hc σ v hm⟩
+      · rcases iha.1 with ⟨c, L, hc⟩
+        exact ⟨c, L, fun σ v hm => by rw [hv σ v hm, Bool.not_not]; exact hc σ v hm⟩
+    | joined op ns =>
+      rw [hg] at h hcl
+      cases op with
+      | or => simp at h
+      | and =>
+        simp only at h
+        have hall := foldl_flagStep_simple (fun d => flagInternal t f d) ns h
+        have hconj : ∀ d ∈ ns, IsConj t d :=
+          fun d hd => (ih d (hcl d (by simpa [Node.children] using hd)) (hall d hd)).1
+        rcases isConj_all ns hconj with ⟨c, L, hc⟩
+        refine ⟨⟨c, L, fun σ v hm => ?_⟩, fun hcn => ?_⟩
+        · have := hm n hn; rw [hg] at this; rw [this]; exact hc σ v hm
+        · exact absurd hg (hcn n (AliasEnd.here (fun b hb => by rw [hg] at hb; cases hb)) _ _)
+
+/-- `NoNegAlias` implies the weaker chain condition -/
+theorem noNegAliasJoin_of_noNegAlias {t : Tree} (hna : NoNegAlias t) : NoNegAliasJoin t :=
+  fun i a b hi hg hab => absurd hab (hna i a b hi hg)
+
 end CelerVerif.Csg
